@@ -35,15 +35,17 @@ CONSTANTS Keys,      \* key names
           PageS,     \* pages of the ...AndLimit methods
           SizeS,     \* sizes of the ...AndLimit methods
           MaxAdv,    \* largest clock step (0: the clock stands still)
-          KVOnly     \* TRUE: only commands that kv.Store offers (single-key commands, multi-key Del)
+          KVOnly,    \* TRUE: only commands that kv.Store offers (single-key commands, multi-key Del)
+          PipeLens   \* lengths of the pipelines offered by family "pipe"
 
 VARIABLES ks,        \* [Keys -> typed value]
           exp,       \* [Keys -> Nat]  absolute second of expiry, 0 = none
           clock,     \* model seconds
+          pipe,      \* pipeline in progress: [n |-> commands still to come, of |-> its length, err |-> first error]
           out        \* last command with its reply
 
-vars == <<ks, exp, clock, out>>
-core == <<ks, exp, clock>>
+vars == <<ks, exp, clock, pipe, out>>
+core == <<ks, exp, clock, pipe>>
 
 Members == {Mem[i] : i \in 1..Len(Mem)}
 RankOf(m) == CHOOSE i \in 1..Len(Mem) : Mem[i] = m
@@ -54,6 +56,7 @@ NumStr == {ToString(i) : i \in (0 - R)..R}
 IntOf == [s \in NumStr |-> CHOOSE i \in (0 - R)..R : ToString(i) = s]
 IsNum(s) == s \in NumStr
 
+NoPipe == [n |-> 0, of |-> 0, err |-> ""]
 None == [t |-> "none"]
 Str(s) == [t |-> "str", s |-> s]
 Hash(h) == [t |-> "hash", h |-> h]
@@ -310,17 +313,57 @@ Init ==
   /\ ks = [k \in Keys |-> None]
   /\ exp = [k \in Keys |-> 0]
   /\ clock = 0
+  /\ pipe = NoPipe
   /\ out = [c |-> [op |-> "init"], r |-> Ok(0)]
 
 Do(c) ==
+  /\ pipe.n = 0
+  /\ c.op # "p"
   /\ Offered(c)
   /\ \E res \in {Step(c)} :
         /\ ks' = res.ks
         /\ exp' = res.exp
         /\ out' = [c |-> c, r |-> res.r]
+  /\ UNCHANGED <<clock, pipe>>
+
+\* The Ctx form of a method called with a context that is already cancelled ("canceled") or whose
+\* deadline has already passed ("deadline"): like the go-redis command with the same context the call
+\* fails with the context's error and the server is left untouched.
+DoCtx(c, mode) ==
+  /\ pipe.n = 0
+  /\ c.op # "p"
+  /\ out' = [c |-> c, ctx |-> mode,
+             r |-> IF c.op \in {"zrangebyscorelimit", "zrevrangebyscorelimit"} /\ c.size <= 0
+                   THEN Ok(<<>>)          \* answered without looking at the context or asking Redis
+                   ELSE [err |-> mode, v |-> 0]]
+  /\ UNCHANGED core
+
+\* One command of a pipeline (Pipelined / PipelinedCtx with a function that queues the commands):
+\* the server executes the queued commands in order; through its Cmder every command shows the
+\* plain go-redis result of that command (no wrapper conversion: a Get of an absent key is
+\* redis.Nil), whatever happened to its siblings; the pipeline as a whole returns the error of the
+\* first failed command, nil if none failed (go-redis: "Exec returns the error of the first failed
+\* command").  c.c is the queued command; a pipeline of length len is started only if `room` steps
+\* are left.
+PipeReply(q, r) == IF q.op = "get" /\ T(q.k) = "none" THEN NilErr ELSE r
+PipeDo(c, len, room) ==
+  /\ c.op = "p"
+  /\ (pipe.n = 0 => (len \in PipeLens /\ len <= room))
+  /\ Offered(c.c)
+  /\ \E res \in {Step(c.c)} :
+       \E r \in {PipeReply(c.c, res.r)} :
+        LET of   == IF pipe.n = 0 THEN len ELSE pipe.of
+            left == (IF pipe.n = 0 THEN len ELSE pipe.n) - 1
+            ferr == IF pipe.n # 0 /\ pipe.err # "" THEN pipe.err ELSE r.err
+        IN /\ ks' = res.ks
+           /\ exp' = res.exp
+           /\ out' = [c |-> c.c, r |-> r, p |-> [i |-> of - left, n |-> of, perr |-> ferr]]
+           /\ pipe' = IF left = 0 THEN NoPipe ELSE [n |-> left, of |-> of, err |-> ferr]
   /\ UNCHANGED clock
 
 Advance(d) ==
+  /\ pipe.n = 0
+  /\ UNCHANGED pipe
   /\ clock' = clock + d
   /\ ks' = [k \in Keys |-> IF exp[k] # 0 /\ exp[k] <= clock + d THEN None ELSE ks[k]]
   /\ exp' = [k \in Keys |-> IF exp[k] # 0 /\ exp[k] <= clock + d THEN 0 ELSE exp[k]]
@@ -382,14 +425,35 @@ Cmds(fam) ==
          \cup {[op |-> o, k |-> k, start |-> a, stop |-> b] :
                   o \in {"zrange", "zrevrange", "zrangews", "zrevrangews", "zremrangebyrank"}, k \in Keys, a \in IdxS, b \in IdxS}
          \cup {[op |-> "zunionstore", dst |-> d, ks |-> kk] : d \in Keys, kk \in KSeqs}
+    [] fam = "pipe" ->    \* commands that may be queued in a pipeline
+         {[op |-> "p", c |-> q] : q \in
+            {[op |-> o, k |-> k] : o \in {"get", "lpop", "scard", "exists", "llen"}, k \in Keys}
+            \cup {[op |-> "set", k |-> k, v |-> v] : k \in Keys, v \in VS}
+            \cup {[op |-> "incrby", form |-> "incr", k |-> k, n |-> 1] : k \in Keys}
+            \cup {[op |-> "del", ks |-> <<k>>] : k \in Keys}
+            \cup {[op |-> "hget", k |-> k, f |-> M1] : k \in Keys}
+            \cup {[op |-> "hset", k |-> k, f |-> M1, v |-> v] : k \in Keys, v \in VS}
+            \cup {[op |-> "rpush", k |-> k, vs |-> <<v>>] : k \in Keys, v \in VS}
+            \cup {[op |-> "sadd", k |-> k, ms |-> <<M1>>] : k \in Keys}
+            \cup {[op |-> "zadd", form |-> "zadd", k |-> k, s |-> sc, m |-> M1] : k \in Keys, sc \in {CHOOSE x \in ScoreS : TRUE}}
+            \cup {[op |-> "zscore", k |-> k, m |-> M1] : k \in Keys}}
 
 NotInStore == {"mget", "keys", "sunion", "sinter", "sdiff", "sunionstore", "sinterstore", "sdiffstore", "zunionstore"}
 AllCmds == {c \in UNION {Cmds(f) : f \in Fams} :
-              KVOnly => (c.op \notin NotInStore /\ (c.op = "hdel" => Len(c.fs) = 1))}
+              KVOnly => (c.op \notin NotInStore \cup {"p"} /\ (c.op = "hdel" => Len(c.fs) = 1))}
+PlainCmds == {c \in AllCmds : c.op # "p"}
+PipeCmds == {c \in AllCmds : c.op = "p"}
+CtxModes == {"canceled", "deadline"}
 
-Next ==
-  \/ \E c \in AllCmds : Do(c)
+\* room = steps left in the behaviour (a pipeline is started only if it can be completed)
+PlainNext(room) ==
+  \/ \E c \in PlainCmds : Do(c)
+  \/ \E c \in PipeCmds, len \in PipeLens : PipeDo(c, len, room)
   \/ \E d \in 1..MaxAdv : Advance(d)
+
+CtxNext == \E c \in PlainCmds, mode \in CtxModes : DoCtx(c, mode)
+
+Next == PlainNext(4) \/ CtxNext
 
 Spec == Init /\ [][Next]_vars
 
@@ -401,6 +465,7 @@ TypeOK ==
        /\ (ks[k].t = "none" => exp[k] = 0)                     \* only live keys have a TTL
        /\ (exp[k] # 0 => exp[k] > clock)                       \* expired keys are gone
        /\ (ks[k].t = "list" => Len(ks[k].l) <= MaxList)
+  /\ pipe.n \in 0..4 /\ pipe.n <= pipe.of
 
 \* a reply never reports a type error for a key of the right type or an absent key
 WrongTypeOnlyOnTypeClash ==
